@@ -173,6 +173,44 @@ func checkC07(c *Ctx) {
 		}
 		w.SeenB(wf[i])
 	})
+	// systematic family: markers nested inside the bytes of split markers, to depth 6 (each removal re-assembles the next)
+	depthMax := 6
+	nN := 0
+	for d := 0; d <= depthMax; d++ {
+		nN += ipow(4, d+1)
+	}
+	c.Section("C07/nested-splits", map[string]interface{}{"max_nesting_depth": depthMax, "per_level": "marker kind x split position"}, nN, func(i int, w *Worker) {
+		// decode i into (depth, choices)
+		d, r := 0, i
+		for r >= ipow(4, d+1) {
+			r -= ipow(4, d+1)
+			d++
+		}
+		cur := []byte{}
+		for lvl := 0; lvl <= d; lvl++ {
+			ch := r % 4
+			r /= 4
+			m := []byte(mStart)
+			if ch&1 == 1 {
+				m = []byte(mEnd)
+			}
+			if lvl == 0 {
+				cur = append([]byte{}, m...)
+				continue
+			}
+			cut := 1 + (ch >> 1) // split after the first or after the second byte
+			nx := append(append(append([]byte{}, m[:cut]...), cur...), m[cut:]...)
+			cur = nx
+		}
+		for _, x := range [][]byte{cur, append(append([]byte("a"), cur...), 'b')} {
+			w.Eval()
+			if cl, dt := c07Eval(x, w.Retained()); cl != "" {
+				w.Fail(cl, map[string]interface{}{"s": x, "quoted": q(string(x))}, dt)
+			}
+		}
+		w.SeenB(cur)
+	})
+	replayers["C07/nested-splits"] = replayers["C07/arbitrary"]
 	// the marker accessors hand out byte slices: writing into one must not change what Redact/StripMarkers do
 	c.Section("C07/accessor-isolation", map[string]interface{}{"accessors": "StartMarker, EndMarker, RedactedMarker", "after_scribbling": "all strings of <=4 tokens re-checked"}, 1, func(_ int, w *Worker) {
 		acc := []struct {
